@@ -34,6 +34,16 @@ def good_messages(rng: random.Random) -> list[bytes]:
                                gen.rfc_wire(461, 0, 0x40, b"ctx@3gpp.org"),
                                gen.rfc_wire(416, 0, 0x40, (1).to_bytes(4, "big")),
                                gen.rfc_wire(415, 0, 0x40, (0).to_bytes(4, "big"))], app=4))
+    # a watchdog request carrying an AVP its command does not define: a Grouped one whose payload is not an AVP list (the
+    # message is delivered all the same -- nobody reads that value)
+    out.append(msg(280, 0x80, [oh, orr, gen.rfc_wire(456, 0, 0x00, b"\x01\x02\x03")]))
+    # every legal flag combination occurs: a retransmitted request (T), an error answer (E), a proxiable answer
+    out.append(msg(272, 0xd0, [gen.rfc_wire(263, 0, 0x40, b"s;1;3"), oh, orr, gen.rfc_wire(283, 0, 0x40, b"example.net"),
+                               gen.rfc_wire(258, 0, 0x40, (4).to_bytes(4, "big")), gen.rfc_wire(461, 0, 0x40, b"ctx@3gpp.org"),
+                               gen.rfc_wire(416, 0, 0x40, (1).to_bytes(4, "big")), gen.rfc_wire(415, 0, 0x40, (0).to_bytes(4, "big"))],
+                   app=4))
+    out.append(msg(280, 0x90, [oh, orr]))
+    out.append(msg(272, 0x60, [gen.rfc_wire(263, 0, 0x40, b"s;1;4"), gen.rfc_wire(268, 0, 0x40, (3002).to_bytes(4, "big")), oh, orr], app=4))
     out.append(msg(999, 0x80, []))                                          # bare 20-byte header
     out.append(msg(8388620, 0x80, [gen.rfc_wire(263, 0, 0x40, b"x" * 100)], app=16777217))
     out.append(msg(271, 0x80, [gen.rfc_wire(263, 0, 0x40, b"acct;1"), oh, orr,
